@@ -70,6 +70,9 @@ type C04Plan struct {
 	Votes   []C04Vote    `json:"votes,omitempty"`
 	Foreign []C04Foreign `json:"foreign,omitempty"`
 	States  []C04State   `json:"states,omitempty"`
+	// Genesis arms the size comparison for the genesis transactions as built in memory (a known
+	// finding that would otherwise end every run at its first crossing); drawn for one run in eight.
+	Genesis bool `json:"genesis,omitempty"`
 }
 
 func genC04(rt *rapid.T) any {
@@ -92,6 +95,7 @@ func genC04(rt *rapid.T) any {
 	for i := 0; i < nf; i++ {
 		p.Foreign = append(p.Foreign, C04Foreign{Tx: rapid.IntRange(0, 30).Draw(rt, "ftx"), Where: rapid.IntRange(0, 4).Draw(rt, "fwhere"), Len: rapid.IntRange(1, 5).Draw(rt, "flen")})
 	}
+	p.Genesis = rapid.IntRange(0, 7).Draw(rt, "genesisq") == 7
 	ns := rapid.IntRange(0, 3).Draw(rt, "nstate")
 	for i := 0; i < ns; i++ {
 		p.States = append(p.States, C04State{Step: rapid.IntRange(0, 9).Draw(rt, "sstep"), Pick: rapid.IntRange(0, 7).Draw(rt, "spick"), Shape: rapid.IntRange(0, 5).Draw(rt, "sshape")})
@@ -156,9 +160,10 @@ func c04DiffHeader(a, b *types.BlockHeader) (string, string) {
 // ---------------------------------------------------------------------------
 
 type c04Run struct {
-	w *World
-	r *simkit.Run
-	n *Node
+	w       *World
+	r       *simkit.Run
+	n       *Node
+	genesis bool // judge the recorded size of the in-memory genesis transactions
 }
 
 func (x *c04Run) fail(oracle, seam, label, format string, args ...any) {
@@ -190,9 +195,19 @@ func (x *c04Run) checkTx(seam, what string, orig, got *types.Tx) bool {
 				kind = "coinbase"
 			}
 		}
-		x.fail("size-changed", seam, kind, "%s: the transaction records serialized size %d (header entry %d); after crossing %s it records %d (header entry %d)",
-			what, orig.TxData.SerializedSize, orig.Tx.SerializedSize, seam, got.TxData.SerializedSize, got.Tx.SerializedSize)
-		return false
+		for _, gtx := range x.w.Genesis.Transactions {
+			if gtx.ID == orig.ID && orig.TxData.SerializedSize == 0 {
+				// built in memory by config.GenesisTxs, which never records a size
+				kind = "genesis-built-in-memory"
+			}
+		}
+		if kind == "genesis-built-in-memory" && !x.genesis {
+			x.r.Count("contained.genesis_size_not_judged", 1)
+		} else {
+			x.fail("size-changed", seam, kind, "%s: the transaction records serialized size %d (header entry %d); after crossing %s it records %d (header entry %d)",
+				what, orig.TxData.SerializedSize, orig.Tx.SerializedSize, seam, got.TxData.SerializedSize, got.Tx.SerializedSize)
+			return false
+		}
 	}
 	if len(orig.ResultIds) != len(got.ResultIds) || len(orig.InputIDs) != len(got.InputIDs) {
 		x.fail("id-changed", seam, "entries", "%s: after crossing %s the transaction maps to other entries", what, seam)
@@ -630,7 +645,7 @@ func execC04(t *testing.T, plan any, r *simkit.Run) {
 		w := NewWorld(t, r, p.Tree.Cfg)
 		start := nowMs()
 		btm := *consensus.BTMAssetID
-		x := &c04Run{w: w, r: r}
+		x := &c04Run{w: w, r: r, genesis: p.Genesis}
 		offered := 0
 		stateTx := func(pst *model.BlockState, step int, txs []*types.Tx) []*types.Tx {
 			defer func() {
